@@ -81,7 +81,7 @@ _spec_hash = None
 
 
 # bump when the logic of a stage in check.py / stages_ext.py changes what a stage produces
-STAGE_VERSION = "19"
+STAGE_VERSION = "20"
 
 
 def spec_hash():
@@ -386,7 +386,7 @@ def count_nontrivial(script):
 
 
 def core_dump(tier):
-    return stage_dump(tier, segments=(("crash", 500 if tier == "quick" else 6000),))
+    return stage_dump(tier, segments=(("crash", 500 if tier == "quick" else 2000),))
 
 
 def replay_configs(tier):
@@ -437,7 +437,9 @@ def stage_replay(tier, dump=None, name="replay", universe="3"):
 def stage_segments(tier, segfile, name, universe="3", configs=None):
     """execute segment files (forgotten iterators, crash sweeps) on the real cache and let
     TLC validate every recorded event"""
-    configs = configs or replay_configs(tier)
+    # every segment is swept (about 8 runs of 20 events each) and every event goes through
+    # TLC: 6 configurations are what fits into a thorough run
+    configs = configs or replay_configs(tier)[:6]
 
     def go(d):
         w = spec_workdir(d)
@@ -761,6 +763,34 @@ def stage_bigcrash(tier):
     res = stage_segments(tier, d0, "segments-bigcrash", universe="8", configs=cfgs)
     res["segments"] = n
     return res
+
+
+def stage_apalache(tier):
+    """optional unbounded layer: Apalache discharges the inductive invariant of spec/LruCore.tla
+    (order-free core: cur = sum of recorded sizes, cur <= max) - base case and inductive step,
+    for symbolic sizes and limits and histories of any length.  No verdict depends on it; the
+    outcome (discharged / counterexample / timed out / unavailable) is reported in the evidence."""
+    def go(d):
+        w = spec_workdir(d)
+        out = {}
+        for name, args in (("base_case", ["--init=Init", "--length=0"]),
+                           ("inductive_step", ["--init=IndInit", "--length=1"])):
+            try:
+                p = run(["apalache-mc", "check", "--cinit=ConstInit", "--inv=IndInv",
+                         "--out-dir=" + os.path.join(d, "apa-" + name)] + args + ["LruCore.tla"],
+                        900, cwd=w, ok_codes=None)
+                out[name] = ("discharged" if "The outcome is: NoError" in p.stdout else
+                             "counterexample" if "The outcome is: Error" in p.stdout else
+                             "unavailable: " + (p.stdout + p.stderr)[-200:])
+            except ToolError as e:
+                out[name] = "timed out" if "timeout" in str(e) else "unavailable: " + str(e)[:200]
+            except FileNotFoundError:
+                out[name] = "unavailable: apalache-mc not installed"
+        shutil.rmtree(w, ignore_errors=True)
+        for name in ("base_case", "inductive_step"):
+            shutil.rmtree(os.path.join(d, "apa-" + name), ignore_errors=True)
+        return out
+    return cached("apalache-" + tier, spec_hash(), go)
 
 
 def stage_scale(tier):
@@ -1197,6 +1227,12 @@ def collect_core(prop, tier, fnd, cov):
     collect_drive(prop, drv, fnd, cov)
     if prop in ("C01", "C02", "C04", "C07"):
         scale_into(prop, tier, fnd, cov)
+    if prop in ("C01", "C02"):
+        apa = stage_apalache(tier)
+        cov["apalache_inductive_invariant_LruCore"] = apa
+        if any(v == "counterexample" for v in apa.values()):
+            raise ToolError("Apalache refutes the inductive invariant of spec/LruCore.tla (specification "
+                            "defect, not a code defect): %s" % apa)
     if prop == "C07":
         import stages_ext
         stages_ext.list_into(prop, tier, fnd, cov, sys.modules[__name__])
